@@ -253,6 +253,8 @@ class OrderedCadence(Cadence):
         self._check(v)
         if i < 0:
             i = len(self) + i
+        if not 0 <= i < len(self):
+            raise IndexError("cadence assignment index out of range")
         if "order_label" not in v.metadata:
             v.add_metadata({"order_label": self.order[i]})
         self.frames[i] = v
@@ -260,7 +262,8 @@ class OrderedCadence(Cadence):
     def insert(self, i, v):
         self._check(v)
         if i < 0:
-            i = len(self) + i
+            i = max(len(self) + i, 0)
+        i = min(i, len(self))
         if "order_label" not in v.metadata:
             v.add_metadata({"order_label": self.order[i]})
         self.frames.insert(i, v)
